@@ -77,4 +77,18 @@ def letOpC (c : Choice) (d : LetArg) (u : Int) (log : List SchedItem) : M (Int Ã
   | .refs d => tryToReorderC c (composeBody u d) log
   | .names d => tryToReorderC c (renameBody u d) log
 
+/-- module-level `image(...)` under the choice `c` -/
+def imageC (c : Choice) (trans source : Int) (rn : List (Key Ã— Key)) (qvars : List Key)
+    (forall_ : Bool) (log : List SchedItem) : M (Int Ã— List SchedItem) := fun m =>
+  match qvarsByName m.tbl qvars with
+  | .error e => (.error e, m)
+  | .ok qn => tryToReorderC c (imageBody trans source (renameByName m.tbl rn) qn forall_) log m
+
+/-- module-level `preimage(...)` under the choice `c` -/
+def preimageC (c : Choice) (trans target : Int) (rn : List (Key Ã— Key)) (qvars : List Key)
+    (forall_ : Bool) (log : List SchedItem) : M (Int Ã— List SchedItem) := fun m =>
+  match qvarsByName m.tbl qvars with
+  | .error e => (.error e, m)
+  | .ok qn => tryToReorderC c (preimageBody trans target (renameByName m.tbl rn) qn forall_) log m
+
 end DD
